@@ -1,5 +1,6 @@
 #!/bin/bash
-# try_seed.sh <patch.diff> <prop> [<prop>...] : apply a seeded change to /repo, run the checks, undo it
+# try_seed.sh <patch.diff> <prop> [<prop>...] : apply a seeded change to /repo, run the checks, undo it,
+# then re-run the same checks on the restored tree so that evidence/ describes the real tree again
 p=$1; shift
 git -C /repo apply "$(realpath $p)" || { echo "patch does not apply"; exit 2; }
 for c in "$@"; do
@@ -7,3 +8,4 @@ for c in "$@"; do
   echo "== $c rc=$rc"; echo "$out" | grep -A3 "^VIOLATION" | grep -v "^--" | cut -c1-260 | head -${LINES_MAX:-12}
 done
 git -C /repo checkout -- .
+for c in "$@"; do (cd /verif && ./check $c >/dev/null 2>&1) || echo "!! $c does not pass on the restored tree"; done
